@@ -41,7 +41,7 @@ var Check = &run.Check{
 	Level: "exploration",
 	Rule: "case = generated JUnit-style tree: 1-4 test classes (*Test.java / *Tests.java, or any name under [module/]src/test/java/<package dirs>) + 0-2 production classes with the same patterns, in flat / nested-package / Maven layouts; " +
 		"every class has 1-5 methods annotated @Test / @Ignore / both in either order (own lines, one line, on the declaration line, comments between, one annotation over several lines; with and without annotation arguments), 0-3 helper methods with or without assertions " +
-		"(called unqualified, this-qualified or class-qualified), other methods without @Test/@Ignore (also @Before/@After/...) carrying the same patterns, and a static method other test classes call; " +
+		"(called unqualified, this-qualified or class-qualified), other methods without @Test/@Ignore (also @Before/@After/...) carrying the same patterns, and a static method other test classes call; in nested / Maven layouts 3 of 10 trees also hold two test classes of the SAME simple name in different packages, each with a helper of the same name (one asserting, one not) and a test that reaches an assertion only through it; " +
 		"test bodies are assembled from planted evidence in random order, each call recorded with its line: System.out.print/println/printf x0-7, Thread.sleep x0-5, two-argument calls with identical arguments x0-3 (assertions and plain calls), " +
 		"assertion methods of each of the seven documented prefixes (unqualified, receiver, static-qualified, chained, nested in arguments) with multiplicities 1-7 (4/5/6 emphasised), plain calls (also one plain method x5-7), " +
 		"look-alikes (System.err.println, System.out.flush/format, writer.println, timer.sleep, TimeUnit.SECONDS.sleep, Thread.yield), new expressions, commented-out evidence, blocks (if/for/try), two statements on a line, argument lists continued on the next line; " +
@@ -161,6 +161,36 @@ func runCase(c *run.Ctx, o *run.Outcome) {
 	}
 	for _, e := range expected {
 		o.Count("expected_"+e.Type, 1)
+	}
+	// two test classes of one simple name in different packages, each with a helper of the same name
+	if shared := oracle.TbsSharedClassNames(t); len(shared) > 0 {
+		o.Count("trees_with_same_named_test_classes", 1)
+		viaAsserting, viaSilent := 0, 0
+		for _, f := range t.Files {
+			if !f.IsTest() || !shared[f.Class] {
+				continue
+			}
+			for _, m := range f.Methods {
+				if m.Profile != "twin" {
+					continue
+				}
+				for _, call := range m.Calls {
+					if call.Kind == testsmellgen.KindHelper && strings.HasPrefix(call.Target, "helperTwin") {
+						if oracle.TbsAssertionVia(f, m) == "helper" {
+							viaAsserting++
+						} else {
+							viaSilent++
+						}
+						break
+					}
+				}
+			}
+		}
+		o.Count("same_named_classes_tests_asserting_only_via_same_named_helper", viaAsserting)
+		o.Count("same_named_classes_tests_whose_same_named_helper_does_not_assert", viaSilent)
+		if viaAsserting > 0 && viaSilent > 0 {
+			o.Count("trees_with_same_named_classes_and_helpers_differing_in_assertion", 1)
+		}
 	}
 	o.Seen("layouts", t.Layout)
 	o.Shape = run.ShapeHash(testsmellgen.Shape(t))
